@@ -4,6 +4,7 @@ import (
 	"fmt"
 	"os"
 	"os/exec"
+	"sort"
 	"strconv"
 	"strings"
 	"sync"
@@ -20,7 +21,7 @@ func selftestDeterminism(props []string, n int) int {
 	}
 	bad := 0
 	for _, prop := range props {
-		procs := []int{1, 1, 4, 4, 16, 16}
+		procs := []int{1, 1, 4, 4, 16, 16, 1, 4} // the last two run the seeds in reverse order
 		outs := make([]string, len(procs))
 		var wg sync.WaitGroup
 		for i, gmp := range procs {
@@ -29,7 +30,7 @@ func selftestDeterminism(props []string, n int) int {
 				defer wg.Done()
 				cmd := exec.Command(b.Bin, "-test.run", "^TestHashes$", "-test.timeout", "0")
 				cmd.Env = append(os.Environ(), "GODEBUG=randseednop=0", "GOMAXPROCS="+strconv.Itoa(gmp),
-					"VERIF_PROP="+prop, "VERIF_HASHES="+strconv.Itoa(n), "VERIF_SEED="+os.Getenv("VERIF_SEED"), "VERIF_TIER="+os.Getenv("VERIF_TIER"))
+					"VERIF_REVERSE="+map[bool]string{true: "1", false: ""}[i >= 6], "VERIF_PROP="+prop, "VERIF_HASHES="+strconv.Itoa(n), "VERIF_SEED="+os.Getenv("VERIF_SEED"), "VERIF_TIER="+os.Getenv("VERIF_TIER"))
 				o, _ := cmd.CombinedOutput()
 				var lines []string
 				for _, l := range strings.Split(string(o), "\n") {
@@ -37,6 +38,12 @@ func selftestDeterminism(props []string, n int) int {
 						lines = append(lines, l)
 					}
 				}
+				sort.Slice(lines, func(a, b int) bool {
+					var x, y int
+					fmt.Sscanf(lines[a], "HASH %d", &x)
+					fmt.Sscanf(lines[b], "HASH %d", &y)
+					return x < y
+				})
 				outs[i] = strings.Join(lines, "\n")
 			}(i, gmp)
 		}
